@@ -316,7 +316,7 @@ pub(crate) mod __verif {
         kani::cover!(!r && k == 1);
     }
 
-    // @obligation name=d7_backref_icase_ascii props=C10,C01,C13 fn=matchers::backref_icase kind=bounded bound="haystack = two symbolic ASCII chars; referenced range = the first char; every boundary, both directions, both modes; Utf8Input and AsciiInput; canonicalisation uninterpreted" min_checks=100 w=2 timeout=600
+    // @obligation name=d7_backref_icase_ascii props=C10,C01:t,C13:t fn=matchers::backref_icase kind=bounded bound="haystack = two symbolic ASCII chars; referenced range = the first char; every boundary, both directions, both modes; Utf8Input and AsciiInput; canonicalisation uninterpreted" min_checks=100 w=2 timeout=600
     // Same contract as d7_backref_icase on ASCII text, for the UTF-8 and the ASCII input (which must agree).
     #[kani::proof]
     #[kani::unwind(4)]
